@@ -234,6 +234,10 @@ pub fn run(ctx: &Ctx) -> Report {
     };
     let tr = crate::combo::run_triples(ctx.seed, &kinds, ctx.tier.pick(64, 4), |t| { let (l, t, c) = case_of(t); judge(&l, &t, &c) }, |t| { let (l, t, c) = case_of(t); case_json(&l, &t, &c) });
     total.merge(tr);
+    crate::fuzzrun::replay_corpus("spell", &mut total);
+    if ctx.tier == Tier::Thorough {
+        crate::fuzzrun::campaign("spell", ctx.seed.wrapping_add(13), 300_000, 8, 400, &mut total);
+    }
     Report {
         stats: total,
         rule: "random expressions over the keyword vocabulary in which -depth, -threads N, -maxdepth N, -mindepth N also occur as leaves (middle, inside parentheses, after '!', last), preceded by a leading run of 0..9 options, rendered canonically or through the layout variant grammar (separators, operator spellings, quoting, zero-padded numbers - also in the leading run; three-value pool so that a value returns after being overridden: A, B, A). Model: depth = any -depth; threads = value of the last -threads in textual order; expected tree = expression with every option leaf replaced by -true (a leading run leaves it untouched; only options -> -true); no option node in the returned tree; fifth argument of the emitted lipe-scan = N or (lipe-getopt-thread-count). Any -maxdepth/-mindepth: the input must be rejected with an error or the limit must show in the returned options; never a panic, never silently ignored. Non-trivial: an option outside the leading run, or a repeated option. Distinct: by (leading run, tree, layout choices).".into(),
